@@ -23,7 +23,7 @@ From Coq Require Import String.
 From Coq Require Import List Arith Bool.
 Import ListNotations.
 From YP Require Import Base.Str Term.Term Unify.Unify Engine.Frame Engine.Db Engine.World Engine.CursorFrame
-  Engine.Isolation Engine.Footprint Engine.Slots Engine.SlotsReach Engine.IsolationExamples Engine.SlotsExamples Engine.NonLifoExamples Engine.SharedExamples.
+  Engine.Isolation Engine.Footprint Engine.Slots Engine.SlotsReach Engine.IsolationExamples Engine.SlotsExamples Engine.NonLifoExamples Engine.SharedExamples Engine.MetaExamples.
 
 (* the initial world of any number of engines satisfies the invariant, and every step keeps it (see step_local) *)
 Theorem C04_init_world_inv : forall n, winv (init_world n).
@@ -373,3 +373,39 @@ Example C04_nonvacuous_shared_inputs :
   /\ proj 0 (snd (wrun 100 (init_world 2) ssched)) = snd (erun 2 0 100 (map snd (only 0 ssched)) init_engine [])
   /\ proj 1 (snd (wrun 100 (init_world 2) ssched)) = snd (erun 2 1 100 (map snd (only 1 ssched)) init_engine []).
 Proof. exact ex_shared_inputs. Qed.
+
+(* Round 6: the generator machine of the world model runs the meta-call builtins \= /2, call/N, once/1, findall/3 in clause
+   bodies and as queries (World.metastep, ctl_goal, coll_finish; frames FBar / FNeg / FColl); every theorem above is about
+   this extended machine (the per-step lemmas sstep_frame, sstep_agree, sstep_log, sstep_writes have the new cases).
+   Non-vacuity: two engines load the SAME script  u(L) :- findall(s(X,Y), p(X), L).  f(X) :- once(p(X)).
+   n(X) :- p(X), X \= a.  c(X) :- G = p, call(G, X).  over different facts p/1; their generators are advanced in an
+   interleaved schedule (after 13 steps four generators are suspended, 10 bindings in the one heap); engine 0 observes
+   c: a | u: [s(a,_36), s(b,_50)] | f: a, done | c: b, done | n: [b] | '=' interned as its 4th atom; engine 1 observes
+   n: c | u: [s(c,_37)] | done; and both sequences are those of the engine ALONE (the instance of C04_interleave_alone_init) *)
+(* one step of the generator machine - ANY frame on top of the stack: goal, fact, function, clause, retract, the meta-call
+   builtins (metastep), the control goals of once / \= / findall (ctl_goal), FBar, FNeg, FColl (coll_finish) - whose frames are
+   over the cell set P, on a heap that is closed for P: run on the heap cut down to P it gives the same result (same new stack,
+   answer, fact store, log), and the new stack is over P again.  This is the lemma that is lifted to search / cnext / estep. *)
+Theorem C04_generator_step_frame : forall (P : nat -> bool) (fresh : nat -> nat),
+  (forall k, P (fresh k) = true) -> forall newid h0 m, closed P h0 -> Forall (fgood P) (mfr m) ->
+  sstep (fP P h0) fresh newid m = sstep h0 fresh newid m /\ kgood P (sstep h0 fresh newid m).
+Proof. exact (@sstep_frame). Qed.
+Print Assumptions C04_generator_step_frame.
+
+(* the steps of the meta-call builtins and of their control goals (everything that goes through lift_m) neither touch the
+   fact store nor the access log: whatever once / call / findall / \= read or write, they do through the goals they start *)
+Theorem C04_meta_steps_silent : forall m x, klog m (lift_m m x) = mlog m /\ kdb m (lift_m m x) = mdb m.
+Proof. exact lift_m_silent. Qed.
+Print Assumptions C04_meta_steps_silent.
+
+Example C04_nonvacuous_meta :
+  proj 0 (snd (wrun 200 (init_world 2) msched))
+  = [otag "ok" []; otag "ok" []; otag "ok" []; otag "started" []; mans (mA "a"); otag "started" [];
+     mans (mlist [mS "a" 36; mS "b" 50]); otag "started" []; mans (mA "a"); otag "done" []; mans (mA "b"); otag "done" [];
+     otag "started" []; otag "all" [OL [OL [Term.Show.term_obs (mA "b")]]; OL []]; otag "atom" [OL [onat 3]]]
+  /\ proj 1 (snd (wrun 200 (init_world 2) msched))
+  = [otag "ok" []; otag "ok" []; otag "started" []; mans (mA "c"); otag "started" []; mans (mlist [mS "c" 37]); otag "done" []]
+  /\ proj 0 (snd (wrun 200 (init_world 2) msched)) = snd (erun 2 0 200 (map snd (only 0 msched)) init_engine [])
+  /\ proj 1 (snd (wrun 200 (init_world 2) msched)) = snd (erun 2 1 200 (map snd (only 1 msched)) init_engine [])
+  /\ length (heap (fst (wrun 200 (init_world 2) (firstn 13 msched)))) = 10.
+Proof. exact ex_meta_world. Qed.
